@@ -828,3 +828,19 @@ def _replay_arm_native(verif):
 
 STATIC["arm_patch_content_independent"] = dict(props=["C16"], fn=scan_arm_content_independent, obligation="C16.loads-fake.history",
                                                replay_static=_replay_arm_native, soft=True)
+
+
+# wave 10 (seed C14-j): a faked async function is `<F as Future>::poll` redirected by the same x86-64 installer as
+# every other fake; "every await completes with the value" needs the installer's landing obligations for every
+# placement of the replacement poll function relative to the original (the seed adds a no-trampoline fast path whose
+# displacement wraps for replacements just inside -2 GiB). C14's own harnesses stub the installer (modular), so the
+# installer's contract is part of C14: the two x86-64 lifecycles run under C14 too and their landing / restore
+# obligations are shared with it.
+for _h in ("lifecycle_near", "lifecycle_far"):
+    HARNESSES[_h]["props"] = sorted(set(HARNESSES[_h]["props"]) | {"C14"})
+    HARNESSES[_h]["shared"] = dict(HARNESSES[_h].get("shared", {}), **{
+        "C01.install.entry": sorted(set(HARNESSES[_h].get("shared", {}).get("C01.install.entry", [])) | {"C14"}),
+        "C01.install.tramp": sorted(set(HARNESSES[_h].get("shared", {}).get("C01.install.tramp", [])) | {"C14"}),
+        "C02.restore": sorted(set(HARNESSES[_h].get("shared", {}).get("C02.restore", [])) | {"C14"}),
+        "C03.frame.install": sorted(set(HARNESSES[_h].get("shared", {}).get("C03.frame.install", [])) | {"C14"}),
+    })
